@@ -64,8 +64,27 @@ Qed.
 
 (* ---------- emission discipline ---------- *)
 
+(* the shapes of the UpdateTask commands coroutines issue: the guard names active states only, the counter
+   never goes down and goes up (by one) only when a lease sweep puts an enqueued/claimed task back to init *)
+Definition active_state (s : Z) : Prop := s = TInit \/ s = TEnqueued \/ s = TClaimed.
+Definition ut_shape (u : update_task_cmd) : Prop :=
+  Forall active_state (ut_cur_states u) /\
+  ((ut_counter u = ut_cur_counter u) \/
+   (ut_counter u = ut_cur_counter u + 1 /\ ut_state u = TInit /\
+    exists s, ut_cur_states u = [s] /\ (s = TEnqueued \/ s = TClaimed))) /\
+  (ut_state u = TClaimed -> ut_cur_states u = [TInit; TEnqueued] /\ ut_pid u <> None /\ ut_counter u = ut_cur_counter u) /\
+  (ut_state u = TCompleted -> ut_cur_states u = [TClaimed] \/ ut_cur_states u = [TInit]) /\
+  (ut_state u = TEnqueued -> ut_cur_states u = [TInit]) /\
+  (ut_state u = TTimedout -> ut_counter u = ut_cur_counter u) /\
+  (ut_state u = TInit \/ ut_state u = TEnqueued \/ ut_state u = TClaimed \/ ut_state u = TCompleted \/ ut_state u = TTimedout).
+
+Definition valid_tstate (s : Z) : Prop := s = TInit \/ s = TEnqueued \/ s = TClaimed \/ s = TCompleted \/ s = TTimedout.
+
 Definition cmd_at (d : db) (now : Z) (c : command) : Prop :=
   match c with
+  | UpdateTask u => ut_shape u /\ (ut_state u = TClaimed -> ut_exp u = add64 now (ut_ttl u))
+  | CreateTask tc => ct_state tc = TInit \/ ct_state tc = TClaimed
+  | CreatePromiseAndTask _ tc => ct_state tc = TInit \/ ct_state tc = TClaimed
   | TimeoutLocks t => t = now
   | HeartbeatLocks _ t => t = now
   | HeartbeatTasks _ t => t = now
@@ -91,11 +110,14 @@ Definition cmd_any (c : command) : Prop :=
   match c with
   | TimeoutLocks _ | HeartbeatLocks _ _ | HeartbeatTasks _ _ | ReadPromises _ _ | ReadSchedules _ _ | ReadTasks _ _ _
   | AcquireLock _ _ _ _ _ | CompleteTasks _ _ | CreateTasks _ _ | UpdatePromise _ | DeleteCallbacks _ => False
+  | UpdateTask u => ut_shape u /\ ut_state u <> TClaimed
+  | CreateTask tc => ct_state tc = TInit \/ ct_state tc = TClaimed
+  | CreatePromiseAndTask _ tc => ct_state tc = TInit \/ ct_state tc = TClaimed
   | _ => True
   end.
 
 Lemma cmd_any_at : forall d now c, cmd_any c -> cmd_at d now c.
-Proof. intros d now c H. destruct c; cbn in *; try contradiction; exact I. Qed.
+Proof. intros d now c H. destruct c; cbn in *; try contradiction; try exact I; try exact H. destruct H as [H1 H2]. split; [exact H1|]. intros E. contradiction. Qed.
 
 (* ---------- completions ---------- *)
 
@@ -123,10 +145,16 @@ Definition req_wf (q : request) : Prop :=
 
 (* ---------- coroutine state invariant ---------- *)
 
+Definition tc_ok (o : option create_task_cmd) : Prop :=
+  match o with Some tc => ct_state tc = TInit \/ ct_state tc = TClaimed | None => True end.
+
 Definition k_ok (d : db) (k : kont) : Prop :=
   match k with
   | KReadP_to _ p cmd => prec d p /\ up_id cmd = p_id p /\ final_state (up_state cmd) = true
-  | KCreate_to _ _ _ p cmd => prec d p /\ up_id cmd = p_id p /\ final_state (up_state cmd) = true
+  | KCreate _ tc _ => tc_ok tc
+  | KCreate_router _ tc _ _ => tc_ok tc
+  | KCreate_store _ tc0 _ _ tc => tc_ok tc0 /\ tc_ok tc
+  | KCreate_to _ tc _ p cmd => (prec d p /\ up_id cmd = p_id p /\ final_state (up_state cmd) = true) /\ tc_ok tc
   | KComplete r => user_state (cmr_state r) = true
   | KComplete_up r p cmd _ => prec d p /\ up_id cmd = p_id p /\ user_state (cmr_state r) = true /\ final_state (up_state cmd) = true
   | KCallback_ins p _ => prec d p
@@ -147,6 +175,7 @@ Definition st_ok (d : db) (st : cstate) : Prop :=
 Lemma k_ok_mono : forall d d' k, prom_le d d' -> k_ok d k -> k_ok d' k.
 Proof.
   intros d d' k L H. destruct k; cbn in *; try exact H; try (eapply prec_mono; eassumption);
+    try (destruct H as [[H1 H2] H3]; split; [split; [eapply prec_mono; eassumption|assumption]|assumption]);
     destruct H; (split; [eapply prec_mono; eassumption|assumption]).
 Qed.
 Lemma st_ok_mono : forall d d' st, prom_le d d' -> st_ok d st -> st_ok d' st.
@@ -179,6 +208,7 @@ Definition res_for (d : db) (c : command) (r : result) : Prop :=
   | ReadPromises _ _, RPromises _ _ recs => Forall (prec d) recs
   | SearchPromises _ _ _ _ _, RPromises _ _ recs => Forall (prec d) recs
   | UpdatePromise u, RAlter n => n = 1 -> exists q, In q (promises d) /\ p_id q = up_id u /\ ucompl u q
+  | ReadTasks st _ _, RTasks _ recs => Forall (fun t => in_mask (t_state t) (mask_of st) = true /\ valid_tstate (t_state t)) recs
   | CreatePromise pc, _ => exists n, r = RAlter n /\ (n = 0 \/ prec d (created_promise pc))
   | CreatePromiseAndTask pc _, _ => exists n m, r = RAlter2 n m /\ (n = 0 \/ prec d (created_promise pc))
   | _, _ => True
@@ -226,6 +256,7 @@ Definition k_expects (k : kont) (s : sub) : Prop :=
   | KComplete_up _ _ cmd _ => exists t, s = SStore (completion_txn cmd t)
   | KSearchP q st tg lim sid => s = SStore [SearchPromises q st tg lim sid]
   | KBgTimeoutP => exists t l, s = SStore [ReadPromises t l]
+  | KBgTimeoutT => exists t l, s = SStore [ReadTasks [TEnqueued; TClaimed] t l]
   | KCreate_store _ _ _ pc _ => s = SStore [CreatePromise pc] \/ exists tc, s = SStore [CreatePromiseAndTask pc tc]
   | KClaim_read t =>
     s = SStore (ReadPromise (m_root (t_mesg t)) ::
@@ -399,22 +430,23 @@ Section Resume.
     apply Z.eqb_eq in En. fin1. apply merged_prec; auto. eapply alter_fact; eassumption.
   Qed.
 
-  Lemma r_KCreate : forall r tc wt s c, k_expects (KCreate r tc wt) s -> rdy_ok d s c ->
+  Lemma r_KCreate : forall r tc wt s c, k_ok d (KCreate r tc wt) -> k_expects (KCreate r tc wt) s -> rdy_ok d s c ->
                                         out_ok d now next (resume_seq cfg (KCreate r tc wt) c now next).
   Proof.
-    intros r tc wt s c He Hr. cbn in He. subst s. cbn.
+    intros r tc wt s c Htc He Hr. cbn in He, Htc. subst s. cbn.
     destruct (one_promise c) as [[p|]|] eqn:E; try fin.
     - destruct (read_fact d _ c p Hr E) as [Hp Hid].
       destruct (overdue now p) eqn:Eo; [|destruct wt; fin].
-      apply out_wait_ok; [apply completion_txn_at; apply timeout_cmd_ok; assumption|cbn; repeat split; auto; apply timedout_state_final|cbn; eauto].
+      apply out_wait_ok; [apply completion_txn_at; apply timeout_cmd_ok; assumption| |cbn; eauto].
+      cbn. split; [repeat split; auto; apply timedout_state_final|exact Htc].
     - apply out_wait_ok; cbn; auto.
   Qed.
 
-  Lemma create_cmd_any : forall pc tc c cmd tc', create_cmd pc tc c = Some (cmd, tc') -> cmd_any cmd.
+  Lemma create_cmd_any : forall pc tc c cmd tc', tc_ok tc -> create_cmd pc tc c = Some (cmd, tc') -> cmd_any cmd /\ tc_ok tc'.
   Proof.
-    intros pc tc c cmd tc' H. unfold create_cmd in H.
-    destruct c; try (destruct tc; inversion H; subst; exact I).
-    destruct recv; destruct tc; inversion H; subst; exact I.
+    intros pc tc c cmd tc' Htc H. unfold create_cmd in H.
+    destruct c; try (destruct tc; inversion H; subst; split; exact I).
+    destruct recv; destruct tc; inversion H; subst; cbn; try (split; exact I); split; cbn in *; auto.
   Qed.
 
   Lemma create_cmd_shape : forall pc tc c cmd tc', create_cmd pc tc c = Some (cmd, tc') ->
@@ -425,29 +457,30 @@ Section Resume.
     destruct recv; destruct tc; inversion H; subst; eauto.
   Qed.
 
-  Lemma r_KCreate_router : forall r tc wt pc c, out_ok d now next (resume_seq cfg (KCreate_router r tc wt pc) c now next).
+  Lemma r_KCreate_router : forall r tc wt pc c, k_ok d (KCreate_router r tc wt pc) ->
+                                               out_ok d now next (resume_seq cfg (KCreate_router r tc wt pc) c now next).
   Proof.
-    intros r tc wt pc c. cbn. destruct (create_cmd pc tc c) as [[cmd tc']|] eqn:E; [|fin].
-    pose proof (create_cmd_any _ _ _ _ _ E) as Hany.
+    intros r tc wt pc c Htc. cbn in Htc. cbn. destruct (create_cmd pc tc c) as [[cmd tc']|] eqn:E; [|fin].
+    destruct (create_cmd_any _ _ _ _ _ Htc E) as [Hany Htc'].
     apply out_wait_ok; cbn; auto.
     - split; [repeat constructor; apply cmd_any_at; exact Hany|right; apply any_no_up; repeat constructor; exact Hany].
     - destruct (create_cmd_shape _ _ _ _ _ E) as [->|[t ->]]; eauto.
   Qed.
 
-  Lemma req_of_create_ok : forall r tc wt, out_ok d now next (req_of_create r tc wt now next).
+  Lemma req_of_create_ok : forall r tc wt, tc_ok tc -> out_ok d now next (req_of_create r tc wt now next).
   Proof. intros. unfold req_of_create. wait_ok. Qed.
 
-  Lemma r_KCreate_store : forall r tc0 wt pc tc s c, k_expects (KCreate_store r tc0 wt pc tc) s -> rdy_ok d s c ->
+  Lemma r_KCreate_store : forall r tc0 wt pc tc s c, k_ok d (KCreate_store r tc0 wt pc tc) -> k_expects (KCreate_store r tc0 wt pc tc) s -> rdy_ok d s c ->
                                                      out_ok d now next (resume_seq cfg (KCreate_store r tc0 wt pc tc) c now next).
   Proof.
-    intros r tc0 wt pc tc s c He Hr. cbn in He. cbn. destruct c; try fin. destruct rs as [|x rs]; [fin|].
+    intros r tc0 wt pc tc s c [Htc0 Htc] He Hr. cbn in He. cbn. destruct c; try fin. destruct rs as [|x rs]; [fin|].
     destruct x; try fin.
-    - destruct wt; [fin|]. destruct (rows =? 0) eqn:E0; [apply req_of_create_ok|]. fin1.
+    - destruct wt; [fin|]. destruct (rows =? 0) eqn:E0; [apply req_of_create_ok; exact Htc0|]. fin1.
       apply Z.eqb_neq in E0.
       destruct He as [->|[t ->]]; cbn in Hr; inversion Hr as [|? ? ? ? Hhd Htl]; subst.
       + destruct Hhd as [n [E [Hn|Hn]]]; inversion E; subst; [contradiction|exact Hn].
       + destruct Hhd as [n [m [E _]]]. discriminate.
-    - destruct (negb (prows =? trows)); [fin|]. destruct (prows =? 0) eqn:E0; [apply req_of_create_ok|].
+    - destruct (negb (prows =? trows)); [fin|]. destruct (prows =? 0) eqn:E0; [apply req_of_create_ok; destruct wt; assumption|].
       apply Z.eqb_neq in E0.
       assert (Hc : prec d (created_promise pc)).
       { destruct He as [->|[t ->]]; cbn in Hr; inversion Hr as [|? ? ? ? Hhd Htl]; subst.
@@ -459,8 +492,8 @@ Section Resume.
   Lemma r_KCreate_to : forall r tc wt p cmd s c, k_ok d (KCreate_to r tc wt p cmd) -> k_expects (KCreate_to r tc wt p cmd) s ->
                                                  rdy_ok d s c -> out_ok d now next (resume_seq cfg (KCreate_to r tc wt p cmd) c now next).
   Proof.
-    intros r tc wt p cmd s c [Hp [Hid Hfin]] [t He] Hr. subst s. cbn. destruct (one_alter c) as [n|] eqn:Eo; [|fin].
-    destruct (n =? 1) eqn:En; [|apply req_of_create_ok]. apply Z.eqb_eq in En.
+    intros r tc wt p cmd s c [[Hp [Hid Hfin]] Htc] [t He] Hr. subst s. cbn. destruct (one_alter c) as [n|] eqn:Eo; [|fin].
+    destruct (n =? 1) eqn:En; [|apply req_of_create_ok; exact Htc]. apply Z.eqb_eq in En.
     assert (Hm : prec d (merged p cmd)) by (apply merged_prec; auto; eapply alter_fact; eassumption).
     destruct wt; fin.
   Qed.
@@ -575,13 +608,27 @@ Proof.
   - specialize (IH (tl rs) next). destruct (spawn_sends cfg now exp ts (tl rs) next) as [[sl sb] pre]. cbn in *. constructor; [exact I|exact IH].
 Qed.
 
+Ltac shape_auto :=
+  unfold ut_shape, active_state, TInit, TEnqueued, TClaimed, TCompleted, TTimedout; cbn;
+  repeat split; auto; try (intros; discriminate); try (intros; lia); try (repeat constructor; auto; fail).
+
+Lemma ut_timedout_any : forall t, cmd_any (UpdateTask (ut_timedout t)).
+Proof. intros t. cbn. split; [shape_auto|unfold TTimedout, TClaimed; discriminate]. Qed.
+
+Lemma enq_update_any : forall t exp c, cmd_any (enq_update t exp c).
+Proof.
+  intros t exp c. unfold enq_update. destruct (is_notify t); [cbn; split; [shape_auto|unfold TCompleted, TClaimed; discriminate]|].
+  destruct c; try (cbn; split; [shape_auto|unfold TInit, TClaimed; discriminate]).
+  destruct ok; cbn; (split; [shape_auto|unfold TInit, TEnqueued, TClaimed; discriminate]).
+Qed.
+
 Lemma spawn_sends_pre : forall cfg now exp ts rs next, Forall cmd_any (snd (spawn_sends cfg now exp ts rs next)).
 Proof.
   induction ts as [|t ts IH]; intros rs next; cbn; [constructor|].
   destruct (now <? t_timeout t).
   - specialize (IH (tl rs) (S next)). destruct (spawn_sends cfg now exp ts (tl rs) (S next)) as [[sl sb] pre]. cbn in *. exact IH.
   - specialize (IH (tl rs) next). destruct (spawn_sends cfg now exp ts (tl rs) next) as [[sl sb] pre]. cbn in *.
-    constructor; [exact I|exact IH].
+    constructor; [apply ut_timedout_any|exact IH].
 Qed.
 
 Lemma Forall_any_at : forall d now cs, Forall cmd_any cs -> Forall (cmd_at d now) cs.
@@ -674,15 +721,69 @@ Section Resume2.
   Lemma any_sub : forall cs, Forall cmd_any cs -> sub_at d now (SStore cs).
   Proof. intros cs H. cbn. split; [apply Forall_any_at; exact H|right; apply any_no_up; exact H]. Qed.
 
+  Lemma one_cmd_sub : forall c, cmd_at d now c -> is_up c = false -> sub_at d now (SStore [c]).
+  Proof. intros c H Hu. cbn. split; [repeat constructor; exact H|right; repeat constructor; exact Hu]. Qed.
+
+  Lemma r_KClaim : forall id counter pid ttl c, out_ok d now next (resume_seq cfg (KClaim id counter pid ttl) c now next).
+  Proof.
+    intros id counter pid ttl c. cbn. destruct c; try fin. destruct rs as [|x rs]; [fin|]. destruct x; try fin.
+    destruct recs as [|t recs]; [fin|].
+    destruct (t_state t =? TClaimed); [fin|]. destruct ((t_state t =? TCompleted) || (t_state t =? TTimedout)); [fin|].
+    destruct (negb (t_counter t =? counter)); [fin|].
+    apply out_wait_ok; [|exact I|exact I]. apply one_cmd_sub; [|reflexivity]. cbn. split; [|reflexivity].
+    shape_auto.
+  Qed.
+
+  Lemma r_KCompleteT : forall id counter c, out_ok d now next (resume_seq cfg (KCompleteT id counter) c now next).
+  Proof.
+    intros id counter c. cbn. destruct c; try fin. destruct rs as [|x rs]; [fin|]. destruct x; try fin.
+    destruct recs as [|t recs]; [fin|].
+    destruct ((t_state t =? TCompleted) || (t_state t =? TTimedout)); [fin|].
+    destruct ((t_state t =? TInit) || (t_state t =? TEnqueued)); [fin|].
+    destruct (negb (t_counter t =? counter)); [fin|].
+    apply out_wait_ok; [|exact I|exact I]. apply one_cmd_sub; [|reflexivity]. cbn. split; [shape_auto|].
+    unfold TCompleted, TClaimed. discriminate.
+  Qed.
+
+  Lemma sweep_cmd_any : forall t, in_mask (t_state t) (mask_of [TEnqueued; TClaimed]) = true -> valid_tstate (t_state t) ->
+      cmd_any (if now <? t_timeout t
+               then UpdateTask (mkUT (t_id t) None TInit (t_counter t + 1) 0 0 0 None [t_state t] (t_counter t))
+               else UpdateTask (mkUT (t_id t) None TTimedout (t_counter t) (t_attempt t) 0 0 (Some (t_timeout t)) [t_state t] (t_counter t))).
+  Proof.
+    intros t Hm Hv.
+    assert (Hs : t_state t = TEnqueued \/ t_state t = TClaimed).
+    { unfold valid_tstate, TInit, TEnqueued, TClaimed, TCompleted, TTimedout in *.
+      destruct Hv as [E|[E|[E|[E|E]]]]; rewrite E in *; cbn in Hm; try discriminate; tauto. }
+    destruct (now <? t_timeout t); cbn.
+    - split; [|unfold TInit, TClaimed; discriminate]. unfold ut_shape; cbn. split.
+      + constructor; [|constructor]. unfold active_state. tauto.
+      + split; [right; split; [reflexivity|split; [reflexivity|eauto]]|]. shape_auto.
+    - split; [|unfold TTimedout, TClaimed; discriminate]. unfold ut_shape; cbn. split.
+      + constructor; [|constructor]. unfold active_state. tauto.
+      + split; [left; reflexivity|]. shape_auto.
+  Qed.
+
+  Lemma r_KBgTimeoutT : forall s c, k_expects KBgTimeoutT s -> rdy_ok d s c -> out_ok d now next (resume_seq cfg KBgTimeoutT c now next).
+  Proof.
+    intros s c [t [l He]] Hr. subst s. cbn. destruct c; try fin. destruct rs as [|x rs]; [fin|]. destruct x; try fin.
+    destruct recs as [|t0 recs]; [fin|]. cbn in Hr. inversion Hr as [|? ? ? ? Hhd Htl]; subst. cbn in Hhd.
+    apply out_wait_ok; [apply any_sub|exact I|exact I].
+    change (Forall cmd_any (map (fun t1 => if now <? t_timeout t1
+               then UpdateTask (mkUT (t_id t1) None TInit (t_counter t1 + 1) 0 0 0 None [t_state t1] (t_counter t1))
+               else UpdateTask (mkUT (t_id t1) None TTimedout (t_counter t1) (t_attempt t1) 0 0 (Some (t_timeout t1)) [t_state t1] (t_counter t1))) (t0 :: recs))).
+    apply Forall_forall. intros c Hc. apply in_map_iff in Hc. destruct Hc as [t1 [<- Hin]].
+    eapply Forall_forall in Hhd; [|exact Hin]. destruct Hhd as [Hm Hv]. apply sweep_cmd_any; assumption.
+  Qed.
+
   Lemma resume_seq_ok : forall k s c, k_ok d k -> k_expects k s -> rdy_ok d s c -> out_ok d now next (resume_seq cfg k c now next).
   Proof.
     intros k s c Hk He Hr. destruct k;
       try (eapply r_KReadP; eassumption); try (eapply r_KReadP_to; eassumption); try (eapply r_KCreate; eassumption);
-      try apply r_KCreate_router; try (eapply r_KCreate_store; eassumption); try (eapply r_KCreate_to; eassumption);
+      try (apply r_KCreate_router; assumption); try (eapply r_KCreate_store; eassumption); try (eapply r_KCreate_to; eassumption);
       try (eapply r_KComplete; eassumption); try (eapply r_KComplete_up; eassumption);
       try (eapply r_KCallback; eassumption); try (apply r_KCallback_ins; assumption); try (eapply r_KCallback_reread; eassumption);
       try (eapply r_KSearchP; eassumption);
-      try (eapply r_KClaim_read; eassumption);
+      try (eapply r_KClaim_read; eassumption); try apply r_KClaim; try apply r_KCompleteT; try (eapply r_KBgTimeoutT; eassumption);
       try (eapply r_KBgTimeoutP; eassumption); try apply r_KBgSchedule; try (eapply r_KBgEnqueue_promises; eassumption).
     all: cbn.
     all: repeat match goal with
@@ -694,8 +795,6 @@ Section Resume2.
     - apply out_wait_ok; [apply any_sub|cbn; auto|cbn; auto]. constructor; [exact I|]. destruct (_ =? _)%string; repeat constructor.
     - apply out_wait_ok; [apply any_sub|cbn; auto|cbn; auto]. constructor; [exact I|].
       apply (map_any (fun t0 => ReadPromise (t_root t0))). intros; exact I.
-    - apply out_wait_ok; [apply any_sub|cbn; auto|cbn; auto]. constructor; [destruct (now <? _); exact I|].
-      apply map_any. intros x. destruct (now <? t_timeout x); exact I.
   Qed.
 End Resume2.
 
@@ -703,7 +802,7 @@ Lemma wake_slot_at : forall d s c next now, extra_ok s -> Forall (sub_at d now) 
 Proof.
   intros d s c next now He. destruct s; cbn; try constructor.
   destruct (create_cmd pc None c) as [[cmd tc]|] eqn:E; cbn; [|constructor].
-  pose proof (create_cmd_any _ _ _ _ _ E) as Hany.
+  destruct (create_cmd_any pc None c cmd tc I E) as [Hany _].
   constructor; [|constructor]. cbn. split; [constructor; [apply cmd_any_at; exact Hany|apply Forall_any_at; exact He]|].
   right. apply any_no_up. constructor; assumption.
 Qed.
@@ -743,8 +842,7 @@ Lemma enq_final_any : forall ts now0 exp slots, Forall cmd_any (enq_final ts now
 Proof.
   induction ts as [|t ts IH]; intros now0 exp slots; cbn; [constructor|].
   destruct slots as [|s sl]; [constructor|]. destruct s; try apply IH.
-  destruct (now0 <? t_timeout t); [|apply IH]. constructor; [|apply IH].
-  unfold enq_update. destruct (is_notify t); [exact I|]. destruct c; try exact I. destruct ok; exact I.
+  destruct (now0 <? t_timeout t); [|apply IH]. constructor; [apply enq_update_any|apply IH].
 Qed.
 
 Lemma nth_error_app_len : forall {A} (l : list A) x n, n = List.length l -> nth_error (l ++ [x]) n = Some x.
